@@ -111,7 +111,8 @@ def _tree_matches(tree, g, kind, system, metric):
 
 
 # ------------------------------------------------------------------ tree cache histories
-def make_cache(oid, which, n_calls=2, tiers=("quick", "thorough")):
+def make_cache(oid, which, n_calls=2, tiers=("quick", "thorough"), same_config=False):
+    """same_config: every call uses the first system/metric and reconstruct=False (longer histories that only switch the element kind)"""
     METRICS = ["haversine", "minkowski"] if which == "ball" else ["minkowski", "chebyshev"]
 
     def setup(ctx):
@@ -119,6 +120,8 @@ def make_cache(oid, which, n_calls=2, tiers=("quick", "thorough")):
         calls = []
         for i in range(n_calls):
             calls.append(dict(kind=ctx.enum(f"kind{i}", KINDS), system=ctx.enum(f"system{i}", SYSTEMS), metric=ctx.enum(f"metric{i}", METRICS), rec=ctx.bool(f"reconstruct{i}")))
+            if same_config:
+                ctx.assume(calls[-1]["system"].e == 0, calls[-1]["metric"].e == 0, z3.Not(sc.z(calls[-1]["rec"])))
         return calls
 
     def run(ctx, calls):
@@ -156,6 +159,12 @@ def make_cache(oid, which, n_calls=2, tiers=("quick", "thorough")):
             else:
                 exp = np.vstack([np.deg2rad(getattr(g, f"{p}_lat").values), np.deg2rad(getattr(g, f"{p}_lon").values)]).T
             data = np.asarray(sk.data)
+            n_el = {"nodes": g.n_node, "face centers": g.n_face, "edge centers": g.n_edge}[kind]
+            try:
+                t.query(exp[0], k=n_el, in_radians=True)          # every element of the requested kind can be asked for
+            except Exception as ex:    # noqa: BLE001
+                return (f"call {i}: requested ({kind}, {system}, {metric}) after {[(KINDS[v[f'kind{j}']], SYSTEMS[v[f'system{j}']], METRICS[v[f'metric{j}']]) for j in range(i)]}: "
+                        f"query(k={n_el}) for all {n_el} elements raised {type(ex).__name__}: {str(ex)[:100]}")
             if data.shape != exp.shape or not np.allclose(data, exp) or t.coordinate_system != system or t.distance_metric != metric or t.coordinates != kind:
                 return (f"call {i}: requested ({kind}, {system}, {metric}, reconstruct={rec}) after {[(KINDS[v[f'kind{j}']], SYSTEMS[v[f'system{j}']], METRICS[v[f'metric{j}']]) for j in range(i)]}: "
                         f"tree holds data of shape {data.shape} (expected {exp.shape}), reports ({t.coordinates}, {t.coordinate_system}, {t.distance_metric})")
@@ -345,7 +354,8 @@ def _zr(v):
 
 def obligations(tier):
     obs = [make_cache("C11.cache.ball", "ball"), make_cache("C11.cache.kd", "kd"),
-           make_cache("C11.cache.ball3", "ball", 3, tiers=("thorough",)), make_cache("C11.cache.kd3", "kd", 3, tiers=("thorough",))]
+           make_cache("C11.cache.ball3", "ball", 3, tiers=("thorough",)), make_cache("C11.cache.kd3", "kd", 3, tiers=("thorough",)),
+           make_cache("C11.cache.ball.kinds3", "ball", 3, same_config=True), make_cache("C11.cache.kd.kinds3", "kd", 3, same_config=True)]
     for which, system, metric in (("ball", "spherical", "haversine"), ("ball", "cartesian", "minkowski"), ("kd", "cartesian", "minkowski"), ("kd", "spherical", "minkowski")):
         for batched in (False, True):
             for rad in (False, True):
